@@ -262,6 +262,8 @@ func checkWhoMayCallSinks(w *World, r *Report, c *Component) {
 				construct := fmt.Sprintf("caller=%s/%s", caller.String(), name)
 				if okCaller {
 					r.Pass("Y4", construct, w.InstrPos(in), "sink method called from the component or a Recorder wrapper")
+				} else if rv := caller.Signature.Recv(); rv != nil && types.Identical(rv.Type(), c.T) {
+					r.Fail("Y4", construct, w.InstrPos(in), "the sink is driven from a VALUE-receiver method of "+c.T.Obj().Name()+": it works on a copy, so the bookkeeping it updates next to the sink call (recording flags, frame counters) is lost while the sink itself changes state - the two disagree afterwards", "")
 				} else {
 					r.Fail("Y4", construct, w.InstrPos(in), "a recorder sink method is called from outside MotionProcessor / a Recorder wrapper: the fix-point's closed-world assumption (and the sink protocol) no longer holds", "")
 				}
